@@ -343,7 +343,15 @@ def impl_verdict(tree):
     import traceback
     from schema import SchemaError
     try:
-        return ('built', factory_env_from_data(copy.deepcopy(tree)))
+        given = copy.deepcopy(tree)
+        env = factory_env_from_data(given)
+        if given != tree:
+            return ('modified-input', 'the configuration handed in was modified by the build')
+        try:
+            factory_env_from_data(given)          # the same data builds again
+        except Exception as e:  # noqa: BLE001
+            return ('not-repeatable', f'{type(e).__name__}: {e}')
+        return ('built', env)
     except SchemaError as e:
         return ('schema', type(e).__name__)
     except Exception as e:  # noqa: BLE001
@@ -452,12 +460,41 @@ def config_trees(ctx):
             except (KeyError, IndexError):
                 continue
             jobs.append((name, what, d))
+        # nested entries under keys the schemas do NOT reserve (they are validated late, by the factory of their own kind)
+        for vis in ({'name': 'raytracing'}, {'name': 'partially_occluded'}, {'name': 'raytracing', 'absolute_counts': False, 'threshold': 0.5}, {'name': 'no_such_component'}, {'nome': 'raytracing'}):
+            d = copy.deepcopy(data)
+            d['observation_function'] = {'name': 'from_visibility', 'area': copy.deepcopy(data['observation_function']['area']), 'visibility_function': vis}
+            jobs.append((name, f'observation through from_visibility with the nested entry {vis}', d))
         for _ in range(per):
             d, path = mutate_tree(r, data, strings)
             if r.random() < 0.3:
                 d, path2 = mutate_tree(r, d, strings)
                 path = path + ['+'] + path2
             jobs.append((name, 'random edit at ' + '/'.join(map(str, path)), d))
+    # names that point into a module that does not exist are unknown names: never an environment
+    for name, data, desc in envs.shipped_envs():
+        spots = [('reset_function',), ('observation_function',), ('terminating_function',), ('transition_functions', 0), ('reward_functions', 0)]
+        for spot in spots:
+            d = copy.deepcopy(data)
+            node = d
+            for k in spot:
+                node = node[k]
+            node['name'] = 'no_such_module_vt:' + str(node['name'])
+            try:
+                factory_env_from_data(copy.deepcopy(d))
+                ctx.violation(f'{name}: the component name `{node["name"]}` (a module that does not exist) yields an environment', {'file': name, 'where': list(spot)})
+            except Exception:  # noqa: BLE001
+                pass
+            ctx.case(('missing-module', name, spot), True, None)
+        for sp in ('state_space', 'observation_space'):
+            d = copy.deepcopy(data)
+            d[sp]['objects'] = ['no_such_module_vt:' + d[sp]['objects'][0]] + list(d[sp]['objects'][1:])
+            try:
+                factory_env_from_data(copy.deepcopy(d))
+                ctx.violation(f'{name}: the object type `{d[sp]["objects"][0]}` (a module that does not exist) in {sp} yields an environment', {'file': name})
+            except Exception:  # noqa: BLE001
+                pass
+            ctx.case(('missing-module', name, sp), True, None)
     reqs, metas = [], []
     for name, what, tree in jobs:
         intern = schematab.Interner()
@@ -466,6 +503,10 @@ def config_trees(ctx):
         except ValueError:
             continue
         got = impl_verdict(tree)
+        if got[0] in ('modified-input', 'not-repeatable'):
+            ctx.violation(f'{name} [{what}]: ' + ('building modified the input data' if got[0] == 'modified-input' else f'a configuration that builds does not build a second time from the same data ({got[1]})'),
+                          {'file': name, 'edit': what, 'tree': tree if len(repr(tree)) < 4000 else None})
+            continue
         reqs.append(req)
         metas.append((name, what, tree, got, intern))
     answers = ctx.model(reqs)
